@@ -187,6 +187,10 @@ fn run_scenario(sc: &Value) {
             watch::emit_diff(img, "after");
         }
         probe(&*pool, nf, true);
+        if pool.name() == "generic" {
+            // the instantiation that was never named still runs its own code
+            emit(json!({"ev":"Neighbour","what":"gen_target::<u32>","ok":pool::GenericPool::sibling_ok()}));
+        }
     }
     // a fresh thread can create and use an injector
     let t0 = std::time::Instant::now();
